@@ -91,7 +91,7 @@ def _walk(G, x, y, m):
 
 
 SPEC = {
-    'sdist': _sdist, 'walk': _walk, 'Qrawg': _Qrawg, 'umul': (lambda a, b: a * b), 'udiv': (lambda a, b: a / b),
+    'sdist': _sdist, 'walk': _walk, 'Qrawg': _Qrawg, 'QrawB': (lambda B, c, n: float((_mat(B)[:n, :n] * (np.asarray(c)[:n, None] == np.asarray(c)[None, :n])).sum())), 'umul': (lambda a, b: a * b), 'udiv': (lambda a, b: a / b),
     'rcnt': lambda M, x, n: int(np.count_nonzero(_mat(M)[x, :n])), 'ccnt': lambda M, y, n: int(np.count_nonzero(_mat(M)[:n, y])),
     'rsum': lambda M, x, n: float(_mat(M)[x, :n].sum()), 'csum': lambda M, y, n: float(_mat(M)[:n, y].sum()),
     'rpos': lambda M, x, n: int((_mat(M)[x, :n] > 0).sum()), 'rneg': lambda M, x, n: int((_mat(M)[x, :n] < 0).sum()),
